@@ -19,6 +19,7 @@ import Nitime.Lemmas.TridiFold
 import Nitime.Lemmas.Dpss
 import Nitime.Generated.Dpss
 import Nitime.Lemmas.SlepianReal
+import Nitime.Lemmas.C07Hist
 
 set_option linter.unusedSectionVars false
 namespace Nitime.C07.Props
@@ -433,5 +434,102 @@ example (W : ℝ) : ∃ mu : ℝ, ∀ m, m < 2 → kerOp (sincK W) 2 (fun _ => 1
     simp [triOp, Generated.Dpss.diagGen, Generated.Dpss.offGen] <;> ring
 
 end slepian
+
+/-! ### interpolated tapers: unit norm for EVERY `interp_kind` (was a per-run certificate) -/
+section interpkinds
+
+/-- whatever `interp1d(kind=…)` returned (`y`, any kind: linear, nearest, zero, slinear, quadratic, cubic, spline order),
+as long as it is not identically zero, the row the code hands out — `y / sqrt(sum(y**2))`, then possibly multiplied
+by −1 by the sign convention — has unit energy.  (`interpRescale_unit` with its two hypotheses discharged over ℝ.) -/
+theorem interpolated_unit_norm_all_kinds (y : List ℝ) (hy : ∃ x ∈ y, x ≠ 0) :
+    sumSq (rescale (Real.sqrt (sumSq y)) y) = 1 ∧
+    sumSq ((rescale (Real.sqrt (sumSq y)) y).map fun x => -x) = 1 := by
+  have hnn : ∀ l : List ℝ, 0 ≤ sumSq l := by
+    intro l; unfold sumSq; rw [sumList_eq]
+    exact List.sum_nonneg (by intro x hx; obtain ⟨a, _, rfl⟩ := List.mem_map.1 hx; exact mul_self_nonneg a)
+  have hpos : 0 < sumSq y := by
+    obtain ⟨x, hx, hx0⟩ := hy
+    unfold sumSq; rw [sumList_eq]
+    have hmem : x * x ∈ y.map fun x => x * x := List.mem_map.2 ⟨x, hx, rfl⟩
+    have hle : x * x ≤ (y.map fun x => x * x).sum :=
+      List.single_le_sum (by intro z hz; obtain ⟨a, _, rfl⟩ := List.mem_map.1 hz; exact mul_self_nonneg a) _ hmem
+    exact lt_of_lt_of_le (mul_self_pos.2 hx0) hle
+  have h1 := interpRescale_unit (Real.sqrt (sumSq y)) y (Real.mul_self_sqrt hpos.le) (Real.sqrt_ne_zero'.2 hpos)
+  refine ⟨h1, ?_⟩
+  rw [← h1]
+  unfold sumSq
+  rw [List.map_map]
+  congr 1
+  apply List.map_congr_left
+  intro a _
+  simp
+
+/-- non-vacuity -/
+example : sumSq (rescale (Real.sqrt (sumSq [3, 4])) ([3, 4] : List ℝ)) = 1 :=
+  (interpolated_unit_norm_all_kinds [3, 4] ⟨3, by simp, by norm_num⟩).1
+
+end interpkinds
+
+/-! ### call histories of `dpss_windows`: a result memo in front of a pure function (object model `Model/C07Hist.lean`) -/
+section histories
+open Nitime.C07.Hist
+
+/-- **lookup = recompute for every history iff the key determines all arguments the result depends on** (memo with ANY
+key function, lookup guard, store guard and serve function, handing out copies; histories of requests, evictions and
+callers overwriting what they were handed) -/
+theorem memo_lookup_eq_recompute_iff {A R Key : Type} [DecidableEq Key] (D : Discipline A R Key) (f : A → R)
+    (hal : D.alias = false) :
+    (∀ h : List (Ev A R Key), run D f Store.empty h = h.map (expected f)) ↔ Det D f :=
+  memo_correct_iff D f hal
+
+/-- today's `dpss_windows` (nothing filed): every request of every history gets the recomputed value -/
+theorem dpss_today_history_independent (f : Req → List Row) (h : List (Ev Req (List Row) Req)) :
+    run today f Store.empty h = h.map (expected f) := today_history_independent f h
+
+theorem dpss_memo_full_key_correct (f : Req → List Row) (h : List (Ev Req (List Row) Req)) :
+    run full f Store.empty h = h.map (expected f) := full_key_correct f h
+
+/-- key (N, NW, Kmax), lookup at the top, store at the common exit: interpolated request, then the plain one -/
+theorem dpss_memo_key_forgets_interp_counterexample (f : Req → List Row) (a b : Req)
+    (hN : a.N = b.N) (hW : a.NW = b.NW) (hK : a.K = b.K) (hne : f a ≠ f b) :
+    run nnwk f Store.empty [Ev.call a, Ev.call b]
+      ≠ ([Ev.call a, Ev.call b] : List (Ev Req (List Row) (Nat × Nat × Nat))).map (expected f) :=
+  nnwk_counterexample f a b hN hW hK hne
+
+/-- the same key with the lookup guarded by `interp_from is None` but the store in the shared tail -/
+theorem dpss_memo_unguarded_store_counterexample (f : Req → List Row) (a b : Req)
+    (hN : a.N = b.N) (hW : a.NW = b.NW) (hK : a.K = b.K) (hb : b.M = 0) (hne : f a ≠ f b) :
+    run nnwk9 f Store.empty [Ev.call a, Ev.call b]
+      ≠ ([Ev.call a, Ev.call b] : List (Ev Req (List Row) (Nat × Nat × Nat))).map (expected f) :=
+  nnwk9_counterexample f a b hN hW hK hb hne
+
+/-- … repaired by guarding the store as well -/
+theorem dpss_memo_guarded_store_correct (f : Req → List Row)
+    (hf : ∀ a b : Req, a.N = b.N → a.NW = b.NW → a.K = b.K → a.M = 0 → b.M = 0 → f a = f b)
+    (h : List (Ev Req (List Row) (Nat × Nat × Nat))) :
+    run { nnwk9 with guardS := fun a => a.M == 0 } f Store.empty h = h.map (expected f) :=
+  nnwk_guarded_correct f hf h
+
+/-- a memo that serves the first K rows of a larger filed set is correct with copies … -/
+theorem dpss_memo_prefix_copy_correct (f : Req → List Row) (hlen : ∀ a, (f a).length = a.K)
+    (hpre : ∀ a b : Req, a.N = b.N → a.NW = b.NW → a.M = b.M → a.kind = b.kind → b.K ≤ a.K → (f a).take b.K = f b)
+    (h : List (Ev Req (List Row) (Nat × Nat × Nat × Nat))) :
+    run prefixCopy f Store.empty h = h.map (expected f) := prefix_copy_correct f hlen hpre h
+
+/-- … and wrong when the miss hands out the filed buffers themselves -/
+theorem dpss_memo_alias_on_miss_counterexample (f : Req → List Row) (a : Req) (r' : List Row)
+    (hlen : r'.length = a.K) (hne : r' ≠ f a) :
+    run prefix7 f Store.empty [Ev.call a, Ev.scribble (prefix7.key a) r', Ev.call a]
+      ≠ ([Ev.call a, Ev.scribble (prefix7.key a) r', Ev.call a] : List (Ev Req (List Row) (Nat × Nat × Nat × Nat))).map (expected f) :=
+  prefix7_counterexample f a r' hlen hne
+
+/-- non-vacuity: the symbolic result function the driver runs satisfies the prefix hypotheses -/
+example (h : List (Ev Req (List Row) (Nat × Nat × Nat × Nat))) :
+    run prefixCopy symbolic Store.empty h = h.map (expected symbolic) := by
+  refine dpss_memo_prefix_copy_correct symbolic (by intro a; simp [symbolic]) ?_ h
+  intro a b hN hW hM hk hle
+  simp only [symbolic, ← List.map_take, List.take_range, Nat.min_eq_left hle, hN, hW, hM, hk]
+
+end histories
 
 end Nitime.C07.Props
